@@ -41,17 +41,19 @@ import (
 const prop = "C04"
 
 var (
-	run       *h.Run
-	iss       *issuer
-	fleet     []*srvInfo // servers for attack / barrage cases
-	hbFleet   []*srvInfo // servers with a short heartbeat timeout
-	sshOpen   *srvInfo   // ssh gateway without authorized keys
-	sshKeyed  *srvInfo   // ssh gateway with authorized keys
-	sshLate   *srvInfo   // like sshKeyed; attacked before and after its first legitimate ssh login
-	stallSrv  *srvInfo   // tcpMux off, used only by the stall cases
-	skipFleet []*srvInfo // oidc, both scopes, the four combinations of skipIssuerCheck / skipExpiryCheck
-	all       []*srvInfo
-	webPort   int
+	run        *h.Run
+	iss        *issuer
+	fleet      []*srvInfo // servers for attack / barrage cases
+	hbFleet    []*srvInfo // servers with a short heartbeat timeout
+	sshOpen    *srvInfo   // ssh gateway without authorized keys
+	sshKeyed   *srvInfo   // ssh gateway with authorized keys
+	pluginSrv  *srvInfo   // Login server plugin = stub endpoint of this process
+	pluginDown *srvInfo   // Login server plugin nobody listens on
+	sshLate    *srvInfo   // like sshKeyed; attacked before and after its first legitimate ssh login
+	stallSrv   *srvInfo   // tcpMux off, used only by the stall cases
+	skipFleet  []*srvInfo // oidc, both scopes, the four combinations of skipIssuerCheck / skipExpiryCheck
+	all        []*srvInfo
+	webPort    int
 )
 
 func fatal(what string, err error) {
@@ -119,10 +121,19 @@ func main() {
 	sshLate = mk("ssh-keyed-late-hb-wc", "token", true, true, true, 0, false) // first ssh login only after batch 1
 	sshLate.SSHPort, sshLate.SSHKeys = pa.Get(), true
 	fleet[1].Terse, fleet[6].Terse, sshOpen.Terse = true, true, true // tok-hb, oidc-hb
+	// Login server plugin (runs before the key check): a stub endpoint in this process, and one nobody listens on
+	stubPort, err := startPluginStub(pa.Get())
+	if err != nil {
+		fatal("plugin stub", err)
+	}
+	pluginSrv = mk("tok-hb-plugin", "token", true, false, true, 0, false)
+	pluginSrv.Plugin = fmt.Sprintf("127.0.0.1:%d", stubPort)
+	pluginDown = mk("tok-plugin-unreachable", "token", false, false, true, 0, false)
+	pluginDown.Plugin, pluginDown.NoInc = fmt.Sprintf("127.0.0.1:%d", pa.Get()), true
 	nReal := len(fleet)
-	fleet = append(fleet, sshOpen, sshKeyed, sshLate)
+	fleet = append(fleet, sshOpen, sshKeyed, sshLate, pluginSrv)
 	stallSrv = mk("tok-nomux-stall", "token", false, false, false, 0, false)
-	all = append(append(append([]*srvInfo{}, fleet...), hbFleet...), stallSrv)
+	all = append(append(append([]*srvInfo{}, fleet...), hbFleet...), stallSrv, pluginDown)
 	for i := 0; i < 4; i++ {
 		s := mk(fmt.Sprintf("oidc-hb-wc-skipiss%v-skipexp%v", i&1 != 0, i&2 != 0), "oidc", true, true, true, 0, false)
 		s.SkipIss, s.SkipExp, s.NoInc = i&1 != 0, i&2 != 0, true
@@ -247,6 +258,10 @@ func dispatch(c *h.Case) {
 		trs := si.transports()
 		barrageCase(c, si, trs[rng.Intn(len(trs))])
 	case r < 83:
+		if rng.Intn(2) == 0 {
+			pluginCase(c)
+			return
+		}
 		stallCase(c)
 	case r < 91:
 		si := hbFleet[rng.Intn(len(hbFleet))]
